@@ -1,6 +1,9 @@
 (* Extraction of the lift engine (C12, C13): the lifting mirror, the surface
-   desugaring, and the spec-side decision trees.  Only ExtrOcamlBasic. *)
+   desugaring, and the spec-side decision trees;
+   for C13 also the mirror of the compound-assignment shortcuts and the
+   expansion the specification expects.  Only ExtrOcamlBasic. *)
 Require Extraction.
 Require Import ExtrOcamlBasic.
-Require Model.Base Model.Lift Spec.CfgSpec.
-Separate Extraction Base.base_roots Base.outcome Lift.lift Lift.desugar CfgSpec.trace_tree CfgSpec.walk_tree.
+Require Model.Base Model.Lift Model.Shortcuts Spec.CfgSpec Spec.SurfaceSpec.
+Separate Extraction Base.base_roots Base.outcome Lift.lift Lift.desugar CfgSpec.trace_tree CfgSpec.walk_tree
+  Shortcuts.parse_substitution SurfaceSpec.expected_statement.
